@@ -211,14 +211,22 @@ def run_case(case, ctx, st):
                     "temperature": lambda v: v * 2, "solver": lambda v: "sgd" if v == "adam" else "adam",
                     "ovo": lambda v: not v, "min_samples_leaf": lambda v: v,
                     "groups": lambda v: ([[0, 1]] if v is None else None) if d >= 2 else v,
-                    "batch_size": lambda v: 3 if v is None else None}
+                    "batch_size": lambda v: 3 if v is None else None,
+                    "base_kernel": lambda v: "rbf" if v != "rbf" else "linear",
+                    "base_kernel_params": lambda v: {"gamma": 0.77} if cur.get("base_kernel") in ("rbf", "laplacian", "poly", "polynomial", "sigmoid") else v,
+                    "kernel": lambda v: ("rbf" if v != "rbf" else "linear") if isinstance(v, str) and v != "precomputed" else v,
+                    "kernel_params": lambda v: {"gamma": 0.77} if cur.get("kernel") in ("rbf", "laplacian", "poly", "polynomial", "sigmoid") else v,
+                    "metric": lambda v: ("manhattan" if v != "manhattan" else "euclidean") if v != "precomputed" else v,
+                    "gemini": lambda v: ("tv_ova" if v != "tv_ova" else "mmd_ovo") if (isinstance(v, str) or v is None) and not pre else v}
             keys = [k for k in alts if k in cur and k != "min_samples_leaf"]
             key = keys[int(rng.integers(0, len(keys)))]
             old = cur[key]
             new = alts[key](old)
             est.set_params(**{key: new})
             if rng.random() < 0.8:
-                X2, y2 = (Xref, yref) if key == "groups" else other_data()
+                # on the reference data half of the time: state cached per data set under the changed value would then
+                # be hit again by the final fit
+                X2, y2 = (Xref, yref) if (key == "groups" or rng.random() < 0.5) else other_data()
                 if key != "groups" or X2.shape[1] == d:
                     _, exc = guarded(lambda: est.fit(X2, y2), X2, y2, "fit")
                     fitted = exc is None
